@@ -8,6 +8,6 @@ mkdir -p bin evidence replays
 rc=0
 for d in cmd/*/; do
   n=$(basename "$d")
-  go build -o "bin/$n" "./cmd/$n" || rc=1
+  ./run.sh "$(echo "$n" | tr 'a-z' 'A-Z')" --build-only || rc=1
 done
 exit $rc
